@@ -38,3 +38,5 @@ Definition G : gen :=
   | None => {| g_checked := []; g_required := []; g_possible := [] |}
   end.
 Definition reserved : list str := map s2r Gen.UserInputChecks.reserved.
+(* the cursor statements of shovel/task.go: code constants, parameters only *)
+Definition cursor_texts : list str := map s2r Gen.UserInputChecks.task_consts.
